@@ -45,11 +45,14 @@ func runNested(n *Nested) {
 	idx := len(nestedRuns)
 	nestedRuns = append(nestedRuns, NestedRun{N: n})
 	// the inner event has a trace of its own
-	outer := Marks
-	Marks = nil
+	outer, outerCalls := Marks, HookCalls
+	Marks, HookCalls = nil, nil
 	restore := func() []uint64 {
 		m := Marks
 		Marks = outer
+		// (the hook invocations likewise: the inner event's hooks are handed the inner event's level and message)
+		nestedRuns[idx].Obs.HookCalls = append(nestedRuns[idx].Obs.HookCalls, HookCalls...)
+		HookCalls = outerCalls
 		return m
 	}
 	var ev *zerolog.Event
@@ -74,8 +77,8 @@ func runNested(n *Nested) {
 		ApplyEvent(ev, in.Ops)
 	}()
 	fin := func() {
-		outer = Marks
-		Marks = nil
+		outer, outerCalls = Marks, HookCalls
+		Marks, HookCalls = nil, nil
 		from := len(w2.lines)
 		defer func() {
 			r := &nestedRuns[idx]
